@@ -8,7 +8,8 @@
    [driven]            the step-wise scalar reference: the parent is stepped with the parameter re-assigned by hand
                        to the next value of the parameter pattern, which is stepped separately;
    [set_pattern]       PRef.set_pattern as a state transformer;
-   [nest_ref], [tshape] nestings of pattern-returning patterns / tuples containing patterns.
+   [nest_ref], [tres]  nestings of pattern-returning patterns / tuples containing patterns;
+   [pdict_of]          the object both PDict constructor forms build.
    Definitions only; the lemmas are in Pat/ParamProofs.v. *)
 From Isobar Require Import Base.Prelude Pat.Val Pat.Syntax Pat.Step.
 From Coq Require Import String.
@@ -93,10 +94,6 @@ Definition set_pattern (p : pat) (r : arg) : pat :=
 Fixpoint nest_ref (k : nat) (a : arg) : arg :=
   match k with O => a | S k' => AP (PRef (nest_ref k' a)) end.
 
-(** k one-element endless sequences around a: PSequence([PSequence([...a...])]) — a pattern whose values are patterns *)
-Fixpoint nest_seq (k : nat) (a : arg) : arg :=
-  match k with O => a | S k' => AP (PSequence (AL [nest_seq k' a]) (AV (VInt MAXSIZE)) 0 0) end.
-
 Section Driven.
   Variable binop : op -> val -> val -> outcome val.
   Variable LMAX : nat.
@@ -122,28 +119,36 @@ Section Driven.
     end.
 End Driven.
 
-(** tuples containing patterns: [tresolve g a] = the value Pattern.value must return for the argument tree a and the
-    tree afterwards, when [g] says how each nested pattern answers its (single) next() call *)
-Fixpoint tresolve (g : pat -> option (val * pat)) (a : arg) : option (val * arg) :=
-  let fix go (l : list arg) : option (list val * list arg) :=
-    match l with
-    | [] => Some ([], [])
-    | x :: r => match tresolve g x, go r with
-                | Some (v, x'), Some (vs, r') => Some (v :: vs, x' :: r')
-                | _, _ => None
-                end
-    end in
+(** tuples containing patterns.  [tres n g a] = the value Pattern.value must return for the argument tree a (tuples
+    nested at most n deep) and the tree afterwards, when [g] says how each nested pattern answers its single next()
+    call: every pattern of the tree is asked exactly once, left to right, and replaced by its successor state *)
+Fixpoint opt_items (h : arg -> option (val * arg)) (l : list arg) : option (list val * list arg) :=
+  match l with
+  | [] => Some ([], [])
+  | x :: r => match h x, opt_items h r with
+              | Some (v, x'), Some (vs, r') => Some (v :: vs, x' :: r')
+              | _, _ => None
+              end
+  end.
+
+Fixpoint tres (n : nat) (g : pat -> option (val * pat)) (a : arg) : option (val * arg) :=
   match a with
   | AV v => Some (v, a)
   | AP p => match g p with Some (v, p') => Some (v, AP p') | None => None end
-  | AT l => match go l with Some (vs, l') => Some (VTup vs, AT l') | None => None end
+  | AT l => match n with
+            | O => None
+            | S n' => match opt_items (tres n' g) l with Some (vs, l') => Some (VTup vs, AT l') | None => None end
+            end
   | AL _ | AD _ => None
   end.
 
-(** nesting depth of tuples in an argument tree *)
-Fixpoint tdepth (a : arg) : nat :=
-  let fix go (l : list arg) : nat := match l with [] => O | x :: r => Nat.max (tdepth x) (go r) end in
-  match a with
-  | AT l => S (go l)
-  | _ => O
-  end.
+(** PDict: the object both constructor forms build from the rows (each row a dict over the keys ks):
+    one one-shot sequence per key *)
+Definition lookup (k : string) (row : list (string * val)) : val :=
+  match assoc k row with Some v => v | None => VNone end.
+Definition row_arg (row : list (string * val)) : arg := AD (map (fun kv => (fst kv, AV (snd kv))) row).
+Definition column (k : string) (rows : list (list (string * val))) : list arg := map (fun r => AV (lookup k r)) rows.
+Definition one_shot (col : list arg) : pat := PSequence (AL col) (AV (VInt 1)) 0 0.
+Definition pdict_of (ks : list string) (rows : list (list (string * val))) : pat :=
+  PDict (AD (map (fun k => (k, AP (one_shot (column k rows)))) ks)).
+Definition has_key (k : string) (row : list (string * val)) : Prop := exists v, assoc k row = Some v.
